@@ -363,6 +363,16 @@ class ScenarioContainer(TagAndStatusStatement, Replayable):
         :param runner:  Runner to use.
         :return: True, if test-run failed.
         """
+        try:
+            return self._run(runner)
+        except KeyboardInterrupt:
+            # -- ABORTED-BY-USER: While a hook of this entity or its parts runs.
+            # ENFORCE: compute_status() from what was run
+            # (a hook may have asked for the status in the meantime).
+            self.clear_status()
+            raise
+
+    def _run(self, runner):
         # pylint: disable=too-many-branches, too-many-locals, too-many-statements
         # MAYBE: self.reset()
         self.clear_status()
@@ -1679,18 +1689,21 @@ class ScenarioOutline(Scenario):
         # REASON: context._set_root_attribute(), scenario._row
         self.clear_status()
         failed_count = 0
-        for scenario in self.scenarios:     # -- REQUIRE: BUILD-SCENARIOS
-            runner.context._set_root_attribute("active_outline", scenario._row)
-            failed = scenario.run(runner)
-            if failed:
-                failed_count += 1
-                if runner.config.stop or runner.aborted:
-                    # -- FAIL-EARLY: Stop after first failure.
-                    break
-        runner.context._set_root_attribute("active_outline", None)
-        # -- ENSURE: Status is computed from the scenarios after they have run
-        #    (a hook may have asked for the status while they were running).
-        self.clear_status()
+        try:
+            for scenario in self.scenarios:     # -- REQUIRE: BUILD-SCENARIOS
+                runner.context._set_root_attribute("active_outline", scenario._row)
+                failed = scenario.run(runner)
+                if failed:
+                    failed_count += 1
+                    if runner.config.stop or runner.aborted:
+                        # -- FAIL-EARLY: Stop after first failure.
+                        break
+            runner.context._set_root_attribute("active_outline", None)
+        finally:
+            # -- ENSURE: Status is computed from the scenarios after they have run
+            #    (a hook may have asked for the status while they were running),
+            #    also if the user aborts the run while a hook is running.
+            self.clear_status()
         return failed_count > 0
 
 
